@@ -56,6 +56,7 @@ def run(facts, rep, ctx):
     symmetry(facts, rep, R5)
     R6 = rep.rule("R12.6", "a layer write creates or replaces the whole file with the caller's bytes", floor=2)
     write_replaces(facts, rep, R6)
+    write_reaches_layer(facts, rep, R6)
 
 
 def lookups(facts, rep, R1):
@@ -187,6 +188,41 @@ def confinement(facts, rep, R2):
                 rep.violation(R2, cb.name, "receiver:" + short, "%s writes through %s, which is not provably the last (highest-priority) layer" % (cb.name.rsplit("::", 1)[-1], fmt(recv)[:120]), "%s:%s" % (cb.file, t["line"]))
     # FileSystemLayer is public: its own mutators must not be reachable from any other pub fn of the crate
     # (covered by the caller check above).
+
+
+def write_reaches_layer(facts, rep, R6):
+    """Every path on which LayeredFilesystem::write reports success has handed the bytes to the top layer's write
+    (must-pass-through): a success that wrote nothing breaks read-after-write on the top layer."""
+    from c04 import is_err_term
+    for name, target in (("write", LAYER + "::write"), ("create_dir", LAYER + "::create_dir")):
+        b = facts.body(LFS + "::" + name)
+        if b is None:
+            continue
+        try:
+            paths = enum_paths(b, max_paths=6000)
+        except PathLimit:
+            rep.inconc(R6, "%s: too many paths" % b.name)
+            continue
+        bad = None
+        n = 0
+        for p in paths:
+            if p.end != "ret":
+                continue
+            err = is_err_term(p.ret)
+            if err is True:
+                continue
+            calls = [e for e in p.events if e["k"] == "call" and e["callee"] == target]
+            if calls and (err is False or any(x == calls[-1]["val"] for x in walk(p.ret))):
+                n += 1
+                continue
+            if err is False and not calls:
+                bad = "; ".join(fmt(c[1])[:60] for c in p.conds[-2:])
+        if bad is not None:
+            rep.violation(R6, b.name, "success-without-write", "LayeredFilesystem::%s can return Ok without calling FileSystemLayer::%s (under [%s]): nothing is created in the top layer" % (name, target.rsplit("::", 1)[-1], bad), "%s:%s" % (b.file, b.line))
+        elif n:
+            rep.ok(R6, {"fn": b.name, "success_paths_through_layer_write": n})
+        else:
+            rep.inconc(R6, "%s: no success path through FileSystemLayer::%s recognised" % (b.name, target.rsplit("::", 1)[-1]))
 
 
 def write_replaces(facts, rep, R6):
